@@ -53,6 +53,10 @@ struct Case {
 
 static Case gen_case() {
   Case c;
+  if (chance(1)) {
+    gen_many_blocks_pooled(c.cfg, c.entries);
+    return c;
+  }
   c.cfg = gen_config();
   int size = current_size();
   int maxn = 4 + size * 3;
